@@ -555,3 +555,14 @@ _run_c06i = run
 def run(ctx):
     _run_c06i(ctx)
     ctx.guard(r06_9)
+
+
+_run_before_replay = run
+
+
+def run(ctx):
+    _run_before_replay(ctx)
+    # small-model replay of the real tree: the interplay of cache, search hint, dependency tree, splitting and rounding over
+    # whole query histories, on exact rationals with symbolic noise (replay.py)
+    from . import replay_rules
+    ctx.guard(replay_rules.r06_10)
